@@ -3,6 +3,7 @@
 //
 //   package <hex>                              (used by C16 only)
 //   filter <hex pattern> <strict 0|1> <invert 0|1>
+//   verbose <0|1|2>                            TestOutput::verbose(level_quiet | level_verbose | level_veryVerbose) before the run
 //   test <hex group> <hex name> <hex file> <line> <run|ign>     (ign = IgnoredUtestShell)
 //   print <hex file> <line> <hex text>         UtestShell::print(text, file, line)
 //   fail  <hex file> <line> <hex message>      addFailure(TestFailure(..)), the test goes on
@@ -106,8 +107,9 @@ public:
 struct Registry {
     std::string package;
     bool has_filter; std::string filter; bool strict, invert;
+    int verbosity;
     std::vector<Script> scripts;
-    Registry() : has_filter(false), strict(false), invert(false) {}
+    Registry() : has_filter(false), strict(false), invert(false), verbosity(0) {}
 };
 
 inline bool is_number(const std::string& s) {
@@ -131,6 +133,7 @@ inline std::string join(const vh::Words& w) {
 // applies one definition line; false = malformed / not applicable (printed as `> skip`)
 inline bool apply_op(Registry& r, const vh::Words& w) {
     if (w[0] == "package" && w.size() == 2 && is_hex(w[1])) { r.package = vh::unhex(w[1]); return true; }
+    if (w[0] == "verbose" && w.size() == 2 && (w[1] == "0" || w[1] == "1" || w[1] == "2")) { r.verbosity = w[1][0] - '0'; return true; }
     if (w[0] == "filter" && w.size() == 4 && is_hex(w[1])) {
         r.has_filter = true; r.filter = vh::unhex(w[1]); r.strict = w[2] == "1"; r.invert = w[3] == "1"; return true;
     }
@@ -168,6 +171,7 @@ inline void run_registry(const Registry& r, TestOutput& out) {
     GetPlatformSpecificTimeInMillis = fake_millis;
     GetPlatformSpecificTimeString = fake_time_string;
     g_clock = 0;
+    out.verbose(r.verbosity == 2 ? TestOutput::level_veryVerbose : r.verbosity == 1 ? TestOutput::level_verbose : TestOutput::level_quiet);
     std::vector<UtestShell*> shells;
     for (size_t i = 0; i < r.scripts.size(); i++) {
         const Script* s = &r.scripts[i];
